@@ -54,7 +54,7 @@ Print Assumptions C11_cull.
 
 (* _get_real_index / __getitem__ and _get_apparent_index / index() *)
 Theorem C11_getitem : forall s i j, Inv0 s -> norm_index (length (m_live s)) i = Some j ->
-  m_getitem s i = Ok (nth j (m_live s) 0).
+  m_getitem s i = Ok (nth j (m_live s) 0%N).
 Proof. exact getitem_ok. Qed.
 Print Assumptions C11_getitem.
 
@@ -83,15 +83,15 @@ Proof. exact slice_ok. Qed.
 Print Assumptions C11_slice.
 
 (* the stand-in for sorted() is a sorting function *)
-Theorem C11_sorted_contract : forall l, Sorted le (sort_nat l) /\ Permutation (sort_nat l) l.
+Theorem C11_sorted_contract : forall l, Sorted N.le (sort_nat l) /\ Permutation (sort_nat l) l.
 Proof. exact sorted_contract. Qed.
 Print Assumptions C11_sorted_contract.
 
 (* ---- the hypotheses are inhabited by non-trivial states ---------------------------- *)
 Definition ex_ops : list op :=
-  [Update [Opd false (seq 0 40)]; Remove 30; Remove 35; Remove 34; Pop None; Pop None; Pop None; Pop None;
-   Add 41; GetItem (-1); Index 41; Slice (Some 3%Z) (Some (-2)%Z) (Some 3);
-   IntersectionUpdate [Opd false (seq 0 20); Opd true (seq 10 40)]; Snapshot;
+  [Update [Opd false (nseq 0 40)]; Remove 30%N; Remove 35%N; Remove 34%N; Pop None; Pop None; Pop None; Pop None;
+   Add 41%N; GetItem (-1); Index 41%N; Slice (Some 3%Z) (Some (-2)%Z) (Some 3);
+   IntersectionUpdate [Opd false (nseq 0 20); Opd true (nseq 10 40)]; Snapshot;
    SelfOp SIntersectionUpdate; SelfOp SUnion; SelfOp SSymDiffUpdate; Len].
 
 Example C11_ex_valid : valid_run [] ex_ops = true.
@@ -104,6 +104,6 @@ Example C11_ex_tombstones :
 Proof. vm_compute. reflexivity. Qed.
 
 Example C11_ex_run :
-  nth 9 (map ob_ret (m_run gen_cfg false m_empty ex_ops)) (Raise KeyError) = Ok (RItem 41) /\
+  nth 9 (map ob_ret (m_run gen_cfg false m_empty ex_ops)) (Raise KeyError) = Ok (RItem 41%N) /\
   nth 10 (map ob_ret (m_run gen_cfg false m_empty ex_ops)) (Raise KeyError) = Ok (RNat 33).
 Proof. vm_compute. repeat split; reflexivity. Qed.
